@@ -42,6 +42,22 @@ def _types():
         text: str
         ident: dt.SequenceID
 
+    @bnpdataclass
+    class Inner:
+        count: int
+        name: str
+
+    @bnpdataclass
+    class Mid:
+        allele: Inner
+        depth: int
+
+    @bnpdataclass
+    class Nested:           # a nested-table column two levels deep
+        pos: int
+        label: str
+        call: Mid
+
     # per type: class, sort column, replaced column, source rows (3), fresh value maker for the replaced column
     _TYPES.update({
         "Interval": (dt.Interval, "start", "stop", [("chr1", 2, 10), ("chr22", 3, 1007), ("c3", 1, 200)], lambda k, j: 1000 * k + j),
@@ -52,6 +68,7 @@ def _types():
                            lambda k, j: [k, j, k + j][:1 + j % 3]),
         "ChromosomeSize": (dt.ChromosomeSize, "size", "name", [("chr1", 20), ("chr22", 30), ("c3", 10)], lambda k, j: "f%d_%d" % (k, j)),
         "LocationEntry": (dt.LocationEntry, "position", "chromosome", [("chr1", 2), ("chr22", 3), ("c3", 1)], lambda k, j: "f%d_%d" % (k, j)),
+        "Nested": (Nested, "pos", "label", [(2, "l1", ((1, "a"), 5)), (3, "label2", ((2, "bb"), 6)), (1, "", ((3, "c"), 7))], lambda k, j: "f%d_%d" % (k, j)),
         "Mixed": (Mixed, "key", "seq", [(2, "ACGT", True, 1.5, 5, [1, 2], "hello", "id1"), (3, "GG", False, -2.0, 0, [], "x", "identifier2"),
                                          (1, "T", True, 0.25, 77, [9], "", "i3")], lambda k, j: "ACGT"[(k + j) % 4] * (1 + j % 3)),
     })
@@ -75,6 +92,8 @@ def _plain(v):
         return bool(v)
     if hasattr(v, "to_string"):
         return v.to_string()
+    if dataclasses.is_dataclass(v) and not isinstance(v, type):
+        return [_plain(getattr(v, f.name)) for f in dataclasses.fields(v)]       # one entry of a nested-table column
     return v
 
 
